@@ -305,7 +305,8 @@ R_PNFTH = [f"{_RP}.createDenom_refines", f"{_RP}.updateDenom_refines", f"{_RP}.d
 _RPP = "Panacea.Refine.PnftProps"
 R_PNFTP06 = [f"{_RP}.translated_denom_ops_require_current_owner", f"{_RP}.translated_token_ops_require_current_owner"]
 R_PNFTP12 = [f"{_RP}.translated_history_invariants", f"{_RP}.getPNFTsByDenomId_refines",
-             f"{_RP}.getPNFTsByDenomIdAndOwner_refines", f"{_RP}.getPNFTsByDenomIdAndOwner_bad", f"{_RP}.getAllDenoms_run"]
+             f"{_RP}.getPNFTsByDenomIdAndOwner_refines", f"{_RP}.getPNFTsByDenomIdAndOwner_bad", f"{_RP}.getAllDenoms_run",
+             f"{_RP}.denomsByOwner_refines", f"{_RP}.pnftQuery_refines"]
 _RPQ = "Panacea.Refine.PnftQuery"
 REFINE = {
     "C18": ([_RC], R_COMPKEY),
